@@ -19,6 +19,8 @@ def matcher(name):
 def matches(fd, failure):
     ob = failure.get("obligation", "")
     pat = fd.get("obligation")
+    if pat and failure.get("rt_kinds") and pat.startswith("rt_"):
+        pat = re.sub(r"^rt_[^/]*", "rt_chain", pat)  # chains: any finding of a kind on the chain may explain the entry
     if pat and not re.search(pat, ob):
         return False
     m = fd.get("matcher")
